@@ -8,7 +8,7 @@ import numpy as np
 
 from ..domains import BITS, PAULIS, Poly
 from ..interp import (NOT_HANDLED, TOP, BoundMethod, Closure, Env, Ext, Hooks, Interp, Obj, guard, site_of)
-from ..model import AnalysisError
+from ..model import AnalysisError, norm_stmt
 from ..report import Ctx
 from ..symnp import MiniCSR, call_numpy, scipy_ctor
 
@@ -227,6 +227,9 @@ def pauli_table_sites(ctx: Ctx, rule: str) -> None:
     ob(site_of(mi, fn), 'bsf_to_pauli(dense 2-D)', v, [WORD, 'IZYX'], 'bsf_to_pauli|dense2')
     v = _single(ctx, rule, mi, fn, _run_fn(ctx, rule, mi, fn, [MiniCSR(np.array([WORD_BSF, WORD_BSF[4:] + WORD_BSF[:4]]))]))
     ob(site_of(mi, fn), 'bsf_to_pauli(sparse rows)', v, [WORD, 'IZYX'], 'bsf_to_pauli|sparse')
+    # the same row as bsparse.insert_mod2 would store it when the Z bits are inserted first (unsorted indices)
+    v = _single(ctx, rule, mi, fn, _run_fn(ctx, rule, mi, fn, [MiniCSR(np.array([WORD_BSF]), store=UNSORTED)]))
+    ob(site_of(mi, fn), 'bsf_to_pauli(sparse row, indices stored Z-before-X)', v, [WORD], 'bsf_to_pauli|sparse-unsorted')
 
     # bsf_wt: weight = number of qubits with x or z set, per representation
     mi, fn = m.func('panqec.bpauli', 'bsf_wt')
@@ -241,6 +244,14 @@ def pauli_table_sites(ctx: Ctx, rule: str) -> None:
     ob(site_of(mi, fn), 'bsf_wt(dense bits of IXYZ)', _int(v), 3, 'bsf_wt|dense[IXYZ]')
     v = _single(ctx, rule, mi, fn, _run_fn(ctx, rule, mi, fn, [MiniCSR(np.array([WORD_BSF]))]))
     ob(site_of(mi, fn), 'bsf_wt(sparse bits of IXYZ)', _int(v), 3, 'bsf_wt|sparse[IXYZ]')
+    v = _single(ctx, rule, mi, fn, _run_fn(ctx, rule, mi, fn, [MiniCSR(np.array([WORD_BSF]), store=UNSORTED)]))
+    ob(site_of(mi, fn), 'bsf_wt(sparse bits of IXYZ, indices stored Z-before-X)', _int(v), 3, 'bsf_wt|sparse-unsorted')
+    stack = [[1, 0, 0, 0], [1, 0, 1, 0], [0, 1, 0, 0]]          # X on qubit 0 twice (once as Y), Z... : rows XI, YI, IX
+    vd = _single(ctx, rule, mi, fn, _run_fn(ctx, rule, mi, fn, [np.array(stack)]))
+    vs = _single(ctx, rule, mi, fn, _run_fn(ctx, rule, mi, fn, [MiniCSR(np.array(stack))]))
+    ctx.ob(rule, site_of(mi, fn), 'bsf_wt(stack of rows): sparse and dense representations agree', _int(vd) == _int(vs),
+           f'bsf_wt of the rows XI, YI, IX is {_int(vd)!r} for the dense array and {_int(vs)!r} for the same rows as a '
+           f'sparse matrix', key='bsf_wt|stack-agree', facts={'dense': repr(vd), 'sparse': repr(vs)})
 
     # mbp_decoder.symplectic_to_pauli / pauli_to_symplectic (1,2,3 = X,Y,Z)
     mbp = m.module('panqec.decoders.belief_propagation.mbp_decoder')
@@ -286,6 +297,10 @@ def _int(v):
 # ---------------------------------------------- StabilizerCode converters (shared with C02)
 
 QUBITS = ['q0', 'q1', 'q2', 'q3']
+# storage layouts of the sparse row IXYZ = [0,1,1,0 | 0,0,1,1]: a csr row may keep its column indices in any order
+# (bsparse.insert_mod2 appends) and may keep explicit zeros (`m.data %= 2` after a sum)
+UNSORTED = [(0, 6), (0, 7), (0, 1), (0, 2)]
+EXPLICIT_ZERO = [(0, 0), (0, 1), (0, 2), (0, 4), (0, 6), (0, 7)]
 
 
 class CodeHooks(SymHooks):
@@ -331,7 +346,9 @@ def stabilizer_code_tables(ctx: Ctx, rule: str) -> None:
 
     _, fn = m.own_method('StabilizerCode', 'from_bsf')
     for label, arg in (('1-D array', np.array(bits)), ('1x2n array', np.array([bits])),
-                       ('sparse row', MiniCSR(np.array([bits])))):
+                       ('sparse row', MiniCSR(np.array([bits]))),
+                       ('sparse row, indices stored Z-before-X', MiniCSR(np.array([bits]), store=UNSORTED)),
+                       ('sparse row with an explicitly stored zero', MiniCSR(np.array([bits]), store=EXPLICIT_ZERO))):
         v = _single(ctx, rule, mi, fn, _run_fn(ctx, rule, mi, fn, [arg], self_obj=mini_code(ctx), cls=ci,
                                                hooks=CodeHooks()))
         ob(fn, f'StabilizerCode.from_bsf({label} of IXYZ)', v, op, f'StabilizerCode.from_bsf|{label}')
@@ -444,7 +461,42 @@ def _r034(ctx: Ctx) -> None:
            bad or '', key='bvectors_ints|roundtrip')
 
 
+# in-place by contract (name and docstring say so); everything else in the two modules is a function of its arguments
+_INPLACE_BY_CONTRACT = {
+    'panqec.bsparse.insert_mod2': 'documented in-place insertion into a row matrix',
+    'panqec.bpauli.gf2_rank': 'rank helper (neither a product nor a converter); consumes the list of ints it is given - '
+                              'its only caller, brank, passes a fresh list',
+}
+
+
+def _r035(ctx: Ctx) -> None:
+    """Products and converters are functions of their arguments: no store through a parameter (an attribute
+    cached on an operand survives an in-place update of that operand), and no memoisation."""
+    from .c06 import effects
+    E = effects(ctx.model)
+    fis = [f for f in E.funcs.values() if f.mi.name in ('panqec.bpauli', 'panqec.bsparse') and f.ci is None
+           and isinstance(f.fn, (ast.FunctionDef,)) and f.qual.count('.') == 2]
+    ctx.need(len(fis) >= 25, 'R03.5', 'panqec/bpauli.py', f'only {len(fis)} functions found in bpauli/bsparse')
+    for f in sorted(fis, key=lambda f: f.qual):
+        if f.qual in _INPLACE_BY_CONTRACT:
+            continue
+        bad = [s_ for s_ in f.stores if any(r.startswith('P') and r[1:].isdigit() for r in s_.roots)]
+        via = sorted(f.mut_params)
+        ok = not bad and not via and not f.is_cached
+        detail = ''
+        if bad:
+            detail = (f'{bad[0].how}: {norm_stmt(bad[0].node)} writes into an argument; a value kept on an operand goes '
+                      f'stale when the operand is updated in place (bsparse.insert_mod2) and the caller\'s data change')
+        elif via:
+            detail = f'parameter(s) {[f.params[i] for i in via if i < len(f.params)]} are modified through a callee'
+        elif f.is_cached:
+            detail = 'memoised on arguments that are mutable arrays'
+        ctx.ob('R03.5', f.site if not bad else f'{f.mi.relpath}:{getattr(bad[0].node, "lineno", 0)}',
+               f'{f.qual} leaves its arguments untouched', ok, detail, key=f'{f.qual}|pure')
+
+
 def run(ctx: Ctx) -> None:
+    ctx.rule('R03.5', 'products and converters neither modify nor annotate their arguments', floor=25)
     ctx.rule('R03.4', 'integer <-> bvector converters are mutually inverse (finite domain, plus 80-bit vectors)', floor=3)
     ctx.rule('R03.1', 'bs_prod (dense, list, sparse; 1-D/2-D) is the GF(2) symplectic form entry by entry', floor=70)
     ctx.rule('R03.2', 'every Pauli<->bits converter encodes I=(0,0) X=(1,0) Y=(1,1) Z=(0,1)', floor=25)
@@ -452,9 +504,17 @@ def run(ctx: Ctx) -> None:
     ctx.trust('numpy dot/transpose/slicing/reshape semantics (performed on symbolic object arrays); '
               'scipy csr slicing/dot/.data/.indices semantics as modelled by pqv.symnp.MiniCSR',
               'uint8 accumulation wraps mod 256, which preserves parity')
-    _r031(ctx)
-    _r031_overlap(ctx)
-    pauli_table_sites(ctx, 'R03.2')
-    stabilizer_code_tables(ctx, 'R03.2')
-    _r033(ctx)
-    _r034(ctx)
+    with ctx.part():
+        _r031(ctx)
+    with ctx.part():
+        _r031_overlap(ctx)
+    with ctx.part():
+        pauli_table_sites(ctx, 'R03.2')
+    with ctx.part():
+        stabilizer_code_tables(ctx, 'R03.2')
+    with ctx.part():
+        _r033(ctx)
+    with ctx.part():
+        _r034(ctx)
+    with ctx.part():
+        _r035(ctx)
